@@ -117,7 +117,9 @@ def _trigger(t):
         if z3.is_quantifier(a):      # a Lambda: no useful trigger
             return None
         return z3.Select(a, i)
-    return t
+    if z3.is_app(t) and t.decl().kind() == z3.Z3_OP_UNINTERPRETED and t.num_args() > 0:
+        return t
+    return None              # interpreted / boolean structure cannot serve as a trigger
 
 
 def _mentions(t, q):
